@@ -1152,7 +1152,9 @@ class NestedPipeFunc(PipeFunc):
 
     @functools.cached_property
     def original_parameters(self) -> dict[str, Any]:
-        parameters = set(self._all_inputs) - set(self._all_outputs)
+        # The root arguments of the internal pipeline, i.e., the inputs that
+        # no internal function produces and that are not bound in the function that takes them.
+        parameters = set(self.pipeline.topological_generations.root_args)
         return {
             k: inspect.Parameter(
                 k,
